@@ -16,7 +16,7 @@
    theorems below say what follows for the caller from the behaviour of the glue, the runtime is
    exercised by the correspondence check only. *)
 From Coq Require Import List NArith Bool.
-From Storage Require Import Base.Bytes Lang.Tokens Lang.Lexer Lang.Regex Lang.LexerFull Lang.LexerProofs Lang.Glue Lang.C10Proofs Lang.GlueEntry Lang.GlueEntryProofs.
+From Storage Require Import Base.Bytes Lang.Tokens Lang.Lexer Lang.Regex Lang.LexerFull Lang.LexerProofs Lang.Glue Lang.C10Proofs Lang.GlueEntry Lang.GlueEntryProofs Lang.ForeignBlank Lang.ForeignBlankProofs.
 Import ListNotations.
 
 (* the lexer loses or invents nothing silently: tokens and dropped regions, concatenated in order,
@@ -76,3 +76,50 @@ Theorem every_entry_rejects_lexer_errors : forall (Q : Type) (parser : list (nat
   drops_of (lex_full s) <> [] -> run_entry Q parser LexerAlways e me inst s = Rejected.
 Proof. exact every_entry_rejects_lexer_errors_lemma. Qed.
 Print Assumptions every_entry_rejects_lexer_errors.
+
+
+(* FOREIGN BLANKS (Lang/ForeignBlank.v).  The white space of the grammar is the token rule WS of the rule table, and
+   that rule matches exactly space, LF, tab, CR *)
+Theorem grammar_ws_is_four_characters :
+  In (K_WS, WSc) full_table /\ forall c, matches WSc [c] = is_ws c.
+Proof. exact (conj ws_rule_in_table ws_class_exact_lemma). Qed.
+Print Assumptions grammar_ws_is_four_characters.
+
+(* every character of the table of blank-like characters - the 21 other runes of Go's unicode.IsSpace (what
+   strings.TrimSpace / strings.Fields strip), the other C0 / C1 controls with NUL, BOM and the invisible format
+   characters, U+FFFD (a byte that is not UTF-8), look-alikes of ASCII - is not white space of the grammar, is the first
+   character of no token and the last character of no token (finite table, checked against the rule table) *)
+Theorem blank_like_characters_are_foreign : forall c, In c blank_like_foreign ->
+  is_ws c = false /\ matches WSc [c] = false /\ starts_no_token c = true /\ ends_no_token c = true.
+Proof. exact blank_table_lemma. Qed.
+Print Assumptions blank_like_characters_are_foreign.
+
+Theorem go_space_runes_are_in_the_table : forall c, In c go_space_foreign -> In c blank_like_foreign.
+Proof. exact go_space_in_table. Qed.
+Print Assumptions go_space_runes_are_in_the_table.
+
+(* a text whose first character - behind any amount of grammar white space - can start no token is refused through every
+   entry point, whatever follows; likewise a text whose LAST character can end no token, whatever precedes it
+   (every token of the lexer model is a match of its rule, and no match of any rule ends in that character) *)
+Theorem text_starting_with_untokenizable_rejected :
+  forall (Q : Type) (parser : list (nat * str) -> nat * option Q) e me inst ws c s,
+  forallb is_ws ws = true -> starts_no_token c = true ->
+  run_entry Q parser LexerAlways e me inst (ws ++ c :: s) = Rejected.
+Proof. exact untokenizable_first_rejected_lemma. Qed.
+Print Assumptions text_starting_with_untokenizable_rejected.
+
+Theorem text_ending_with_untokenizable_rejected :
+  forall (Q : Type) (parser : list (nat * str) -> nat * option Q) e me inst s c,
+  ends_no_token c = true ->
+  run_entry Q parser LexerAlways e me inst (s ++ [c]) = Rejected.
+Proof. exact untokenizable_last_rejected_lemma. Qed.
+Print Assumptions text_ending_with_untokenizable_rejected.
+
+(* together: no blank-like foreign character can be trimmed away unnoticed - in front of the text or at its end it makes
+   every entry point refuse the text *)
+Theorem foreign_blank_at_an_edge_rejected :
+  forall (Q : Type) (parser : list (nat * str) -> nat * option Q) e me inst c, In c blank_like_foreign ->
+  (forall ws s, forallb is_ws ws = true -> run_entry Q parser LexerAlways e me inst (ws ++ c :: s) = Rejected) /\
+  (forall s, run_entry Q parser LexerAlways e me inst (s ++ [c]) = Rejected).
+Proof. exact foreign_blank_edges_rejected_lemma. Qed.
+Print Assumptions foreign_blank_at_an_edge_rejected.
